@@ -1,7 +1,10 @@
-(* Extraction for C16: the predicates regenerated from geometry.cpp (Gen.Geometry). *)
+(* Extraction for C16: the predicates regenerated from geometry.cpp (Gen.Geometry) and from linesegment.h (Gen.LineSeg);
+   lineIntersections_model is the hand-written composition of Rectangle::lineIntersections, instantiated in the driver
+   with the generated LineSegment_Intersect. *)
 Require Extraction.
 Require Import ExtrOcamlBasic.
-From Adapt Require Import Num.Qaux Gen.Geometry.
+From Adapt Require Import Num.Qaux Gen.Geometry Geom.LineSegTypes Geom.LineSegSpec Gen.LineSeg.
 Extraction "c16_gen.ml"
   vecDir pointOnLine colinear inBetween segmentIntersect segmentShapeIntersect inValidRegion cornerSide
-  segmentIntersectPoint rayIntersectPoint manhattanDist inPoly inPolyGen projection.
+  segmentIntersectPoint rayIntersectPoint manhattanDist inPoly inPolyGen projection
+  LineSegment_Intersect lineIntersections_model ri0.
